@@ -10,7 +10,8 @@
     interleaving at once.  [alone c s faults d0] is one writer alone.  Contents are token lists: [new s] is the
     complete new content, [d0 (File (dest s))] the previous one. *)
 From Coq Require Import List Bool Arith.
-From SV Require Import SM.AtomicWriter SM.AtomicWriterProofs SM.AtomicWriterThms.
+From SV Require Import SM.AtomicWriter SM.AtomicWriterProofs SM.AtomicWriterThms SM.AtomicExit SM.AtomicExitProofs
+  SM.AtomicOpenLoopProofs SM.AtomicSameDestProofs.
 Import ListNotations.
 
 (** Old or new, never a mixture; new exactly when the replace has succeeded — at every point of every execution,
@@ -117,3 +118,168 @@ Theorem c12_unlink_fault_leaves_temp :
   let st := alone cfg_fixed sc_raise [false; false; false; false; true] d_old in
   p1 st = PDone FNot (Some 1) /\ sd st (Tmp 1) = Some [1] /\ sd st (File 0) = Some [100].
 Proof. exact unlink_fault_leaves_temp. Qed.
+
+(** * The same property for the exit protocol as a generated object (SM/AtomicExit.v)
+
+    translate/c12_atomic.py transliterates [AtomicWriter.__exit__] into a program [aw_exit_prog : xstmt]; the kernel
+    interprets it symbolically into the decision trees [x_ok] / [x_exc] of a protocol [x : xproto] (which operation
+    follows which result of close / rename / unlink, whether an exception leaves [__exit__]).  [run2t x] runs two
+    writers whose exit phase walks these trees.  [proto_safe x] / [proto_ok x] are boolean: the trees are those of a
+    member of the five-flag family with the good flags; the check discharges them for today's program by vm_compute.
+    The theorems below therefore speak about every program the translator can produce, not about five flags. *)
+
+(** Refinement: a protocol in the family runs exactly like the flag machine with the flags read off its trees
+    (same directory and same trace after every schedule, related program counters). *)
+Theorem c12_protocol_refines_flags : forall x, in_family x = true -> forall d0 s1 s2 sched,
+  Rsys (derive_cfg x) (run2t x s1 s2 sched (startt d0)) (run2 (derive_cfg x) s1 s2 sched (start d0)).
+Proof. exact run2t_refines. Qed.
+
+Theorem c12_family_is_recognised : forall c, in_family (proto_of_cfg c) = true.
+Proof. exact family_complete. Qed.
+
+Theorem c12_protocol_crash_atomic : forall x d0 s1 s2, dest s1 <> dest s2 -> proto_safe x = true -> forall sched,
+  let st := run2t x s1 s2 sched (startt d0) in
+  sdt st (File (dest s1)) = (if committedt (q1 st) then Some (new s1) else d0 (File (dest s1))) /\
+  sdt st (File (dest s2)) = (if committedt (q2 st) then Some (new s2) else d0 (File (dest s2))).
+Proof. exact proto_crash_atomic. Qed.
+
+Theorem c12_protocol_fault_keeps_old : forall x d0 s1 s2, dest s1 <> dest s2 -> proto_safe x = true -> forall sched,
+  let st := run2t x s1 s2 sched (startt d0) in
+  faulted false (trt st) -> committedt (q1 st) = false /\ sdt st (File (dest s1)) = d0 (File (dest s1)).
+Proof. exact proto_fault_keeps_old. Qed.
+
+Theorem c12_protocol_body_exception_keeps_old : forall x d0 s1 s2, dest s1 <> dest s2 -> proto_safe x = true ->
+  forall r sched, raise_at s1 = Some r -> r <= length (body s1) ->
+  let st := run2t x s1 s2 sched (startt d0) in
+  committedt (q1 st) = false /\ sdt st (File (dest s1)) = d0 (File (dest s1)).
+Proof. exact proto_body_exception_keeps_old. Qed.
+
+Theorem c12_protocol_no_temp_after_handled_failure : forall x d0 s1 s2, dest s1 <> dest s2 -> proto_ok x = true ->
+  forall sched, let st := run2t x s1 s2 sched (startt d0) in
+  finishedt (q1 st) = true -> (forall i, ~ In (false, (EUnlink i, RFault)) (trt st)) ->
+  assoct (q1 st) = None /\ forall i, assoct (q2 st) <> Some i -> sdt st (Tmp i) = d0 (Tmp i).
+Proof. exact proto_no_temp_after_handled_failure. Qed.
+
+Theorem c12_protocol_two_writers_isolated : forall x d0 s1 s2, dest s1 <> dest s2 -> proto_safe x = true ->
+  forall sched, let st := run2t x s1 s2 sched (startt d0) in
+  (forall i, assoct (q1 st) = Some i -> assoct (q2 st) = Some i -> False) /\
+  (forall i, assoct (q1 st) = Some i \/ assoct (q2 st) = Some i -> d0 (Tmp i) = None /\ sdt st (Tmp i) <> None) /\
+  (forall i, about_to_replace (q1 st) i -> sdt st (Tmp i) = Some (new s1)) /\
+  (forall i, about_to_replace (q2 st) i -> sdt st (Tmp i) = Some (new s2)) /\
+  (forall n, n <> File (dest s1) -> n <> File (dest s2) -> d0 n <> None -> sdt st n = d0 n).
+Proof. exact proto_two_writers_isolated. Qed.
+
+Theorem c12_protocol_body_exception_cleans : forall x d0 s, proto_ok x = true -> forall r faults,
+  raise_at s = Some r -> r <= length (body s) ->
+  let st := alonet x s faults d0 in
+  sdt st (File (dest s)) = d0 (File (dest s)) /\
+  (finishedt (q1 st) = true -> (forall i, ~ In (false, (EUnlink i, RFault)) (trt st)) -> forall n, sdt st n = d0 n).
+Proof. exact proto_alone_body_exception_cleans. Qed.
+
+Theorem c12_protocol_no_temp_left_alone : forall x d0 s, proto_ok x = true -> forall faults,
+  let st := alonet x s faults d0 in
+  finishedt (q1 st) = true -> (forall i, ~ In (false, (EUnlink i, RFault)) (trt st)) ->
+  forall i, sdt st (Tmp i) = d0 (Tmp i).
+Proof. exact proto_alone_no_temp_left. Qed.
+
+(** BSP.save = rebuild phase without file-system operations, then one writer: a failure while rebuilding lumps
+    leaves the whole directory as it was; otherwise the destination is old or complete new at every point. *)
+Theorem c12_save_rebuild_failure_touches_nothing : forall x d0 s faults,
+  let st := save_alone x false s faults d0 in
+  (forall n, sdt st n = d0 n) /\ trt st = [] /\ committedt (q1 st) = false.
+Proof. exact save_pre_failure_touches_nothing. Qed.
+
+Theorem c12_save_atomic : forall x d0 s, proto_safe x = true -> forall pre_ok faults,
+  let st := save_alone x pre_ok s faults d0 in
+  sdt st (File (dest s)) = (if committedt (q1 st) then Some (new s) else d0 (File (dest s))).
+Proof. exact save_atomic. Qed.
+
+(** The named obligations on decision trees follow from [proto_ok] (they refine it; none is an extra demand). *)
+Theorem c12_protocol_ok_implies_tree_obligations : forall x, proto_ok x = true ->
+  forallb (fun b => b) (proto_preds x) = true.
+Proof. exact proto_ok_preds. Qed.
+
+(** Non-vacuity: the repaired [__exit__] (as the translator writes it) satisfies the hypotheses and has the flags
+    [cfg_fixed]; the pinned one is in the family with the flags [cfg_pinned]. *)
+Theorem c12_repaired_program_ok :
+  proto_ok (proto_of_prog true prog_fixed) = true /\ derive_cfg (proto_of_prog true prog_fixed) = cfg_fixed.
+Proof. exact (conj prog_fixed_ok prog_fixed_cfg). Qed.
+Theorem c12_pinned_program_flags :
+  in_family (proto_of_prog true prog_pinned) = true /\ derive_cfg (proto_of_prog true prog_pinned) = cfg_pinned.
+Proof. exact prog_pinned_cfg. Qed.
+
+(** Defective shapes are outside the hypotheses, and the tree machine exhibits what they do.  Commit decided in a
+    [finally] by [exc_type is None] alone: the flush inside close fails, the truncated temp
+    file [1;2] replaces the destination although the complete content is [1;2;3] and an OSError was raised. *)
+Theorem c12_commit_in_finally_refuted :
+  let x := proto_of_prog true prog_commit_in_finally in
+  in_family x = false /\ no_replace (close_fl (x_ok x)) = false /\
+  let st := alonet x sc_a [false; false; false; false; true; false; false] d_old in
+  q1 st = TDone FCommitted None true /\ sdt st (File 0) = Some [1; 2] /\ new sc_a = [1; 2; 3] /\ faulted false (trt st).
+Proof. exact commit_in_finally_refuted. Qed.
+Theorem c12_replace_before_close_refuted :
+  let x := proto_of_prog true prog_replace_before_close in in_family x = false /\ closes_first (x_ok x) = false.
+Proof. exact replace_before_close_refuted. Qed.
+Theorem c12_swallowed_exception_refuted :
+  let x := proto_of_prog true prog_swallow in in_family x = false /\ propagates (x_exc x) true = false.
+Proof. exact swallow_refuted. Qed.
+
+(** * The temp-name loop of [make_tempfile] terminates
+
+    One writer alone, no temp name above tmp_N present: the loop settles on the least free index j <= N+1 after
+    exactly j attempts (all earlier ones answered FileExistsError), creates only tmp_j, nothing else changes. *)
+Theorem c12_open_loop_least_free : forall c s d0 N, c_excl c = true -> (forall i, N < i -> d0 (Tmp i) = None) ->
+  exists j, 1 <= j <= S N /\ d0 (Tmp j) = None /\ (forall k, 1 <= k < j -> d0 (Tmp k) <> None) /\
+    run1 c s (S j) 0 [] PMkdir d0 =
+    (after_body s j 0, upd d0 (Tmp j) (Some []),
+     (EMkdir, ROk) :: exist_events 1 (j - 1) ++ [(EOpen j, ROk)]).
+Proof. exact open_loop_least_free. Qed.
+
+(** Two writers, every schedule and fault pattern: every open attempt (also in the recorded trace) and every held
+    temp name has an index <= N+2.  The attempts of one writer have strictly increasing indexes, so no interleaving
+    makes a writer loop more than N+2 times; [c12_temp_index_bound_is_tight] shows N+2 is reached. *)
+Theorem c12_temp_index_bounded : forall x d0 s1 s2 N, dest s1 <> dest s2 -> proto_safe x = true ->
+  (forall i, N < i -> d0 (Tmp i) = None) -> forall sched,
+  let st := run2t x s1 s2 sched (startt d0) in
+  (forall i, idxt (q1 st) = Some i -> i <= N + 2) /\
+  (forall i, idxt (q2 st) = Some i -> i <= N + 2) /\
+  (forall w i r, In (w, (EOpen i, r)) (trt st) -> i <= N + 2).
+Proof. exact proto_temp_index_bounded. Qed.
+
+Theorem c12_temp_index_bound_is_tight :
+  let d := dir_of [(File 0, [100]); (Tmp 1, [111])] in
+  let st := run2 cfg_fixed sc_a sc_b
+              [(true, false); (true, false); (true, false); (false, false); (false, false); (false, false);
+               (false, false)] (start d) in
+  assoc (p2 st) = Some 2 /\ assoc (p1 st) = Some 3.
+Proof. exact bound_is_tight. Qed.
+
+(** * Two writers to the same destination (beyond the wording of the property: "different files")
+
+    At every point of every schedule and fault pattern the destination holds the previous contents (nobody has
+    committed yet) or the complete contents of a writer that has committed — never chunks of both; temp names are
+    never shared; every other pre-existing file is untouched.  Which of two committed writers wins is decided by the
+    order of the renames ([c12_same_destination_last_rename_wins]). *)
+Theorem c12_same_destination_no_mixture : forall x d0 s1 s2, dest s1 = dest s2 -> proto_safe x = true -> forall sched,
+  let st := run2t x s1 s2 sched (startt d0) in
+  ((committedt (q1 st) = false /\ committedt (q2 st) = false /\ sdt st (File (dest s1)) = d0 (File (dest s1))) \/
+   (committedt (q1 st) = true /\ sdt st (File (dest s1)) = Some (new s1)) \/
+   (committedt (q2 st) = true /\ sdt st (File (dest s1)) = Some (new s2))) /\
+  (forall i, assoct (q1 st) = Some i -> assoct (q2 st) = Some i -> False) /\
+  (forall n, n <> File (dest s1) -> d0 n <> None -> sdt st n = d0 n).
+Proof. exact proto_same_dest_no_mixture. Qed.
+
+Theorem c12_same_destination_fault_never_commits : forall x d0 s1 s2, dest s1 = dest s2 -> proto_safe x = true ->
+  forall sched, let st := run2t x s1 s2 sched (startt d0) in
+  faulted false (trt st) ->
+  committedt (q1 st) = false /\
+  (sdt st (File (dest s1)) = d0 (File (dest s1)) \/
+   (committedt (q2 st) = true /\ sdt st (File (dest s1)) = Some (new s2))).
+Proof. exact proto_same_dest_fault_never_commits. Qed.
+
+Theorem c12_same_destination_last_rename_wins :
+  let sb := {| dest := 0; body := [7]; tail := []; raise_at := None |} in
+  let seq w := repeat (w, false) 6 in
+  sd (run2 cfg_fixed sc_a1 sb (seq false ++ seq true) (start d_old)) (File 0) = Some [7] /\
+  sd (run2 cfg_fixed sc_a1 sb (seq true ++ seq false) (start d_old)) (File 0) = Some [1].
+Proof. exact same_dest_last_rename_wins. Qed.
